@@ -392,13 +392,16 @@ def _alarm(signum, frame):
     raise CaseTimeout()
 
 
-def safe_evaluate(mod, desc):
+_TIMEOUT_RETRIES = [0]
+
+
+def safe_evaluate(mod, desc, _scale=1):
     """Run the module's evaluate; an unexpected exception of the implementation is itself a
     failed oracle (the property demands a result), reported with the exception text.  A watchdog
     (SIGALRM, main thread only) turns an implementation that does not return within the module's
     CASE_TIMEOUT seconds into a failed oracle as well: every property here demands a result."""
     import signal
-    limit = getattr(mod, "CASE_TIMEOUT", 30)
+    limit = getattr(mod, "CASE_TIMEOUT", 30) * _scale
     use_alarm = hasattr(signal, "setitimer") and limit
     if use_alarm:
         try:
@@ -409,8 +412,17 @@ def safe_evaluate(mod, desc):
     try:
         return mod.evaluate(desc)
     except CaseTimeout:
-        return Case(desc, [], [], oracle="implementation did not return within %d s on this input (hang / "
-                    "non-termination where the property demands a result)" % limit, tag="timeout")
+        # The watchdog measures wall-clock time: on a heavily loaded machine an ordinary case can exceed it (seen once:
+        # a 20 ms case next to six other jobs).  The first few time-outs of a run are therefore confirmed by running the
+        # case again with six times the limit before they count as a hang; a real hang still fails, only later.
+        if _scale == 1 and _TIMEOUT_RETRIES[0] < 3:
+            _TIMEOUT_RETRIES[0] += 1
+            retry = True
+        else:
+            retry = False
+        if not retry:
+            return Case(desc, [], [], oracle="implementation did not return within %d s on this input (hang / "
+                        "non-termination where the property demands a result)" % limit, tag="timeout")
     except Infra:
         raise
     except Exception as e:  # noqa
@@ -421,6 +433,7 @@ def safe_evaluate(mod, desc):
         if use_alarm:
             signal.setitimer(signal.ITIMER_REAL, 0)
             signal.signal(signal.SIGALRM, old_handler)
+    return safe_evaluate(mod, desc, _scale=6)
 
 
 def shrink_desc(mod, desc, still_fails, limit=300):
